@@ -63,6 +63,7 @@ type recorder struct {
 	deferred map[int]bool
 	deleted  map[int]bool
 	faults   int
+	plan     *[2]int      // fixed fault plan (error at, crash at) instead of a random one
 	failed   bool         // a live object disagrees with storage: the rest of the run may not be executable
 	pending  func() error // re-issue of the operation that failed
 }
@@ -204,14 +205,26 @@ func (c *recorder) projections() (map[string]any, map[string]any, *absState, err
 		}
 		c.r.obs.mu.Unlock()
 	}
-	mem := map[string]any{"space": c.r.ss != nil, "acl": memAcl, "tr": tr, "obs": obs, "obsAcl": obsAcl}
+	known := []int{}
+	if c.r.acl != nil {
+		c.r.acl.RLock()
+		for i, rec := range c.w.aclRecs {
+			if c.r.acl.HasHead(rec.Id) {
+				known = append(known, i+1)
+			}
+		}
+		c.r.acl.RUnlock()
+	}
+	mem := map[string]any{"space": c.r.ss != nil, "acl": memAcl, "known": known, "tr": tr, "obs": obs, "obsAcl": obsAcl}
 	return disk, mem, st, nil
 }
 
 // execute runs one operation with an optional fault and logs start / calls / end.
 func (c *recorder) execute(start map[string]any, do func() error, reissue func() error) error {
 	errAt, crashAt := 0, 0
-	if c.faults < 3 && c.rnd.Intn(3) == 0 {
+	if c.plan != nil {
+		errAt, crashAt = c.plan[0], c.plan[1]
+	} else if c.faults < 3 && c.rnd.Intn(3) == 0 {
 		k := 1 + c.rnd.Intn(9)
 		if c.rnd.Intn(2) == 0 {
 			errAt = k
@@ -238,11 +251,25 @@ func (c *recorder) execute(start map[string]any, do func() error, reissue func()
 		return c.px.snapErr
 	}
 	n := 0
+	committed := false
 	for _, cl := range calls {
 		if cl.Op == "rollback" || cl.Op == "rollbacksp" {
 			continue
 		}
 		n++
+		if batch, _ := start["batch"].(bool); batch && committed && cl.Op == "begin" {
+			// AddRawRecords goes on with its next record: one spec operation per record
+			cont := map[string]any{}
+			for k, v := range start {
+				cont[k] = v
+			}
+			cont["cont"] = true
+			c.ev(cont)
+			committed = false
+		}
+		if cl.Op == "commit" {
+			committed = true
+		}
 		if crashed && n == crashAt {
 			break
 		}
@@ -430,6 +457,8 @@ func (c *recorder) step() (bool, error) {
 		c.r.acl.RUnlock()
 		if idx < recMaxAcl+1 {
 			cands = append(cands, func() error { return c.opAcl(idx+1, false) })
+			n := 1 + c.rnd.Intn(recMaxAcl+1-idx)
+			cands = append(cands, func() error { return c.opAclBatch(idx+1, idx+n, false) })
 		}
 	}
 	if len(cands) == 0 {
@@ -439,7 +468,7 @@ func (c *recorder) step() (bool, error) {
 }
 
 func (c *recorder) opSpace(retry bool) error {
-	return c.execute(map[string]any{"kind": "space", "t": 1, "snap": false, "set": []int{}, "i": 0, "retry": retry, "id": 0},
+	return c.execute(map[string]any{"kind": "space", "t": 1, "snap": false, "set": []int{}, "i": 0, "lo": 0, "hi": 0, "batch": false, "cont": false, "retry": retry, "id": 0},
 		func() error {
 			ss, err := spacestorage.Create(ctx, c.px, c.w.payload)
 			if err == nil {
@@ -450,7 +479,7 @@ func (c *recorder) opSpace(retry bool) error {
 }
 
 func (c *recorder) opCreate(t int, retry bool) error {
-	return c.execute(map[string]any{"kind": "create", "t": t, "snap": false, "set": []int{}, "i": 0, "retry": retry, "id": 0},
+	return c.execute(map[string]any{"kind": "create", "t": t, "snap": false, "set": []int{}, "i": 0, "lo": 0, "hi": 0, "batch": false, "cont": false, "retry": retry, "id": 0},
 		func() error {
 			root := c.w.roots[t]
 			st, err := c.r.ss.CreateTreeStorage(ctx, treestorage.TreeStorageCreatePayload{RootRawChange: root,
@@ -551,7 +580,7 @@ func (c *recorder) opLocal(t int, snap, retry bool) error {
 		c.u[id] = &uchange{id: id, tree: t, prev: heads, base: root, snap: snap, loc: true, acl: acl, raw: raw}
 		c.ids[raw.Id] = id
 	}
-	return c.execute(map[string]any{"kind": "local", "t": t, "snap": snap, "set": []int{}, "i": 0, "retry": retry, "id": id},
+	return c.execute(map[string]any{"kind": "local", "t": t, "snap": snap, "set": []int{}, "i": 0, "lo": 0, "hi": 0, "batch": false, "cont": false, "retry": retry, "id": id},
 		func() error {
 			tree.Lock()
 			defer tree.Unlock()
@@ -566,7 +595,7 @@ func (c *recorder) opLocal(t int, snap, retry bool) error {
 func (c *recorder) opLocalRejected(t int, snap bool) error {
 	tree := c.r.trees[c.w.roots[t].Id]
 	content := c.r.content("L", snap)
-	return c.execute(map[string]any{"kind": "localv", "t": t, "snap": snap, "set": []int{}, "i": 0, "retry": false, "id": 0},
+	return c.execute(map[string]any{"kind": "localv", "t": t, "snap": snap, "set": []int{}, "i": 0, "lo": 0, "hi": 0, "batch": false, "cont": false, "retry": false, "id": 0},
 		func() error {
 			tree.Lock()
 			defer tree.Unlock()
@@ -601,7 +630,7 @@ func (c *recorder) opRemote(t int, set []int, retry bool) error {
 			heads = append(heads, ch.raw.Id)
 		}
 	}
-	return c.execute(map[string]any{"kind": "remote", "t": t, "snap": false, "set": set, "i": 0, "retry": retry, "id": 0},
+	return c.execute(map[string]any{"kind": "remote", "t": t, "snap": false, "set": set, "i": 0, "lo": 0, "hi": 0, "batch": false, "cont": false, "retry": retry, "id": 0},
 		func() error {
 			tree.Lock()
 			defer tree.Unlock()
@@ -613,9 +642,26 @@ func (c *recorder) opRemote(t int, set []int, retry bool) error {
 		}, func() error { return c.opRemote(t, set, true) })
 }
 
+// opAclBatch: AddRawRecords with the records lo..hi (a re-issued batch is the same payload).
+func (c *recorder) opAclBatch(lo, hi int, retry bool) error {
+	var recs []*consensusproto.RawRecordWithId
+	for i := lo; i <= hi; i++ {
+		rec := c.w.aclRecs[i-1]
+		recs = append(recs, &consensusproto.RawRecordWithId{Id: rec.Id, Payload: append([]byte{}, rec.Payload...)})
+	}
+	return c.execute(map[string]any{"kind": "acl", "t": 0, "snap": false, "set": []int{}, "i": hi, "lo": lo, "hi": hi, "batch": true,
+		"cont": false, "retry": retry, "id": 0},
+		func() error {
+			c.r.acl.Lock()
+			defer c.r.acl.Unlock()
+			return c.r.acl.AddRawRecords(recs)
+		}, func() error { return c.opAclBatch(lo, hi, true) })
+}
+
 func (c *recorder) opAcl(i int, retry bool) error {
 	rec := c.w.aclRecs[i-1]
-	return c.execute(map[string]any{"kind": "acl", "t": 0, "snap": false, "set": []int{}, "i": i, "retry": retry, "id": 0},
+	return c.execute(map[string]any{"kind": "acl", "t": 0, "snap": false, "set": []int{}, "i": i, "lo": i, "hi": i, "batch": false, "cont": false,
+		"retry": retry, "id": 0},
 		func() error {
 			return c.r.addAcl(&consensusproto.RawRecordWithId{Id: rec.Id, Payload: append([]byte{}, rec.Payload...)})
 		}, func() error { return c.opAcl(i, true) })
@@ -623,7 +669,7 @@ func (c *recorder) opAcl(i int, retry bool) error {
 
 func (c *recorder) opDelete(t int, retry bool) error {
 	tree := c.r.trees[c.w.roots[t].Id]
-	return c.execute(map[string]any{"kind": "delete", "t": t, "snap": false, "set": []int{}, "i": 0, "retry": retry, "id": 0},
+	return c.execute(map[string]any{"kind": "delete", "t": t, "snap": false, "set": []int{}, "i": 0, "lo": 0, "hi": 0, "batch": false, "cont": false, "retry": retry, "id": 0},
 		func() error {
 			tree.Lock()
 			defer tree.Unlock()
@@ -693,5 +739,76 @@ func TestRecord(t *testing.T) {
 		rep.AddReplayed(1)
 	}
 	rep.SetExtra("trace_events", tw.Len())
+	// a second log for PersistTrace with a larger id space: one AddRawChanges with a long chain (batch size is
+	// part of the explored space), without a fault, with an error at the commit, with a crash at the heads update
+	if lp := os.Getenv("VERIF_TRACE_OUT_LARGE"); lp != "" {
+		n := vfutil.EnvInt("VERIF_RECORD_LARGE", 65)
+		ltw := vfutil.NewTraceWriter(lp)
+		defer ltw.Close()
+		for v, plan := range [][2]int{{0, 0}, {n + 3, 0}, {0, n + 2}, {n / 2, 0}} {
+			c := &recorder{w: w, rnd: rnd, tw: ltw, rep: rep, base: base, run: runs + v, u: map[int]*uchange{}, ids: map[string]int{}, nxt: recNT + 1}
+			for tr := 1; tr <= recNT; tr++ {
+				c.u[tr] = &uchange{id: tr, tree: tr, snap: true, acl: 1, raw: w.roots[tr]}
+				c.ids[w.roots[tr].Id] = tr
+			}
+			dir := filepath.Join(base, fmt.Sprintf("rl%d", v))
+			if err = os.MkdirAll(dir, 0o755); err != nil {
+				t.Fatal(err)
+			}
+			if err = c.openDB(filepath.Join(dir, "db")); err != nil {
+				t.Fatal(err)
+			}
+			c.ev(map[string]any{"ev": "reset"})
+			none := [2]int{0, 0}
+			c.plan = &none
+			steps := []func() error{func() error { return c.opSpace(false) }, func() error { return c.opCreate(2, false) }}
+			for i := 0; i < n; i++ {
+				steps = append(steps, func() error { return c.authorChain(2) })
+			}
+			for _, st := range steps {
+				if err = st(); err != nil {
+					t.Fatalf("large run %d: %v", v, err)
+				}
+			}
+			p := plan
+			c.plan = &p
+			var set []int
+			for _, id := range c.ofTree(2) {
+				if id != 2 {
+					set = append(set, id)
+				}
+			}
+			if err = c.opRemote(2, set, false); err != nil && err != errAbandon {
+				t.Fatalf("large run %d: %v", v, err)
+			}
+			c.plan = &none
+			if c.pending != nil { // the caller re-issues the payload after the injected error
+				pnd := c.pending
+				c.pending = nil
+				if err = pnd(); err != nil && err != errAbandon {
+					t.Fatalf("large run %d retry: %v", v, err)
+				}
+			}
+			_ = c.px.DB.Close()
+			rep.AddReplayed(1)
+		}
+		rep.SetExtra("trace_events_large", ltw.Len())
+	}
 	complete = true
+}
+
+// authorChain appends one change to the chain of tree t (another replica's change on top of the newest one).
+func (c *recorder) authorChain(t int) error {
+	all := c.ofTree(t)
+	prev := []int{all[len(all)-1]}
+	raw, err := c.w.authorChange(t, []string{c.u[prev[0]].raw.Id}, c.u[t].raw.Id, false, 1)
+	if err != nil {
+		return err
+	}
+	id := c.nxt
+	c.nxt++
+	c.u[id] = &uchange{id: id, tree: t, prev: prev, base: t, acl: 1, raw: raw}
+	c.ids[raw.Id] = id
+	c.ev(map[string]any{"ev": "author", "t": t, "snap": false, "prev": prev, "id": id})
+	return nil
 }
